@@ -354,6 +354,26 @@ def run_case_c11(ops, edit_ops, rng, stats, m, light=False):
                     impl, _ = hw.impl_enum(w, k, nl, True)
                     cmp3(P, 'get_h%s(netlist, recursive=1) after edits' % k, 'C11|enum-after-edit|%s' % k, impl,
                          hw.parse_hrefs(a), E2.expected_enum(k, True) if E2.rooted else None)
+                # ... and the occurrences of single elements are asked again (the same questions were asked before
+                # the edits: whatever a query remembers between calls must follow the edits)
+                items2 = []
+                for i, o in enumerate(w.objs):
+                    if isinstance(o, (sdn.ir.Instance, sdn.ir.Definition, sdn.ir.Port, sdn.ir.Cable, sdn.ir.InnerPin, sdn.ir.Wire)):
+                        items2.append(('%d' % i, o))
+                items2 = sample(rng, items2, 25 if light else 150)
+                ans = m.ask(['hrefs ' + t for t, _ in items2])
+                for (t, o), a in zip(items2, ans):
+                    try:
+                        raw = [hw.tup(w, h) for h in HRef.get_all_hrefs_of_item(o)]
+                    except Exception:  # noqa  (an element the edits detached)
+                        continue
+                    exp = E2.occurrences(o) if E2.rooted else None
+                    if isinstance(o, sdn.ir.Instance) and o.reference is None and exp and not raw:
+                        P.add('oracle', UNREF_SIG, what='get_all_hrefs_of_item(%s)' % t, expected=exp[:3])
+                        exp = None
+                    cmp3(P, 'get_all_hrefs_of_item(%s) after edits' % t, 'C11|hrefs_of_item-after-edit|%s' % type(o).__name__,
+                         sorted(raw), hw.parse_hrefs(a), exp)
+                    stats['after-edit:occ'] += 1
         return P
     finally:
         w.close()
